@@ -19,7 +19,12 @@ def a_line(a):
     return "%s:%d" % a
 
 
+NOT_NORMALISED = 500000000   # ("T", n): token n's address in upper case; to the model an address where no contract lives
+
+
 def a_coq(a):
+    if a[0] == "T":
+        return "(AToken %s)" % cq(NOT_NORMALISED + a[1])
     return "(ANative %s)" % cq(a[1]) if a[0] == "n" else "(AToken %s)" % cq(a[1])
 
 
@@ -504,7 +509,8 @@ def setup_pairs(h, rng, pair_assets, whitelist=None, mins=(0, 0), comm=None, pro
     """owner registers the natives, creates the pairs, everybody approves every pair, user0 seeds liquidity"""
     owner = h.owner()
     for d in range(h.nd):
-        h.do(("fac_add_native", owner, d, rng.choice([6, 6, 18, 0, 8])))
+        # the factory puts no bound on a native's decimals (u8): gaps of 20 and more against the other asset included
+        h.do(("fac_add_native", owner, d, rng.choice([6, 6, 18, 0, 8, 6, 18, 26, 38])))
     created = []
     for (a0, a1) in pair_assets:
         wl = whitelist if whitelist is not None else [USER0, USER0 + 1]
@@ -581,6 +587,13 @@ def gen_swap(h, rng, p, u, limits=True):
         funds = [(offer[1], amount)]
         if bad:
             funds = rng.choice([[], [(offer[1], amount + 1)], [(offer[1], max(0, amount - 1))], [(offer[1], amount), ((offer[1] + 1) % max(1, h.nd), 5)]])
+        elif h.nd > 1 and rng.random() < 0.2:
+            # the right coin plus a sizeable coin of another denom (the pair's other asset when it is native): a donation
+            # that reaches the pair before the swap is priced
+            od = ask[1] if ask[0] == "n" else (offer[1] + 1) % h.nd
+            extra = min(h.bank(u, od), max(1, r[1 - i] // rng.choice([1, 3, 50])))
+            if extra > 0 and od != offer[1]:
+                funds = sorted([(offer[1], amount), (od, extra)])
         return ("swap", p, u, funds, offer, amount, bp, ms, to)
     named = offer
     n_amount = amount
@@ -756,6 +769,10 @@ def extreme_histories(rng, tier):
             lp = h.pair_lp(p)
             if rng.random() < 0.5 and h.bal(lp, USER0 + 1) > 1:
                 h.do(("transfer", lp, USER0 + 1, p, 1))        # LP parked at the pair itself
+            if len(cases) % 2 == 0:
+                # the owner re-registers a native of the pair with decimals 20+ away from the other asset's
+                d = [a for a in (a0, a1) if a[0] == "n"][0][1]
+                h.do(("fac_add_native", h.owner(), d, rng.choice([26, 38, 255])))
             for u in h.users():
                 b = h.bal(lp, u)
                 for a in sorted({1, max(1, b // 2), b}):
@@ -867,8 +884,10 @@ def provide_matrix(rng, tier):
     kind, on pairs with liquidity (C05: exactly the declared deposits are pulled; malformed listings are rejected)"""
     cases = []
     for rep in range({"quick": 1, "thorough": 3}[tier]):
-        h = Hist(3, 3, 3, 3, 10 ** 12, 1000, [6, 6, 6], "directed-matrix", "C05 provision listing matrix")
-        created = setup_pairs(h, rng, [(("n", 0), ("n", 1)), (("n", 0), ("t", 2)), (("t", 2), ("t", 3))],
+        # bank denom 2 is spelled exactly like the address of cw20 token 4 (which is in no pair): on the pair (denom2, token3)
+        # the "foreign token" slot is a cw20-kind asset carrying the native leg's string
+        h = Hist(3, 3, 3, 4, 10 ** 12, 1000, [6, 6, 6], "directed-matrix", "C05 provision listing matrix", look=(2, 4))
+        created = setup_pairs(h, rng, [(("n", 0), ("n", 1)), (("n", 0), ("t", 2)), (("t", 2), ("t", 3)), (("n", 2), ("t", 3))],
                               comm=3 * 10 ** 15, scale=10 ** 7)
         u = USER0 + 1
         for p in created:
@@ -885,6 +904,104 @@ def provide_matrix(rng, tier):
                     for funds in ([], fexact, fexact[:1]):
                         for rcv in (None, h.users()[-1]):
                             h.do(("provide", p, u, funds, l0, n0, l1, n1, None, rcv))
+        cases.append(h.finish())
+    return cases
+
+
+def first_provision_matrix(rng, tier):
+    """the initial provision of a pair (LP supply 0): caller {whitelisted, not} x receiver {none, whitelisted other, other,
+    the caller} x deposits {below a minimum, meeting both}, per pair kind; every account has an open allowance towards the
+    pair, so only the contract's own rules decide who pays.  Then ordinary provisions on behalf of others (C05, C07)."""
+    cases = []
+    kinds = [(("n", 0), ("n", 1)), (("n", 0), ("t", 2)), (("t", 2), ("t", 3)), (("t", 3), ("n", 1))]
+    for rep in range({"quick": 1, "thorough": 4}[tier]):
+        h = Hist(4, 2, 2, 4, 10 ** 12, 1000, [6, 18], "directed-matrix", "first provision matrix")
+        wl_user, other_wl, outsider, outsider2 = USER0 + 1, USER0, USER0 + 2, USER0 + 3
+        m0, m1 = rng.choice([(1000, 2000), (1, 1), (0, 0), (5000, 10)])
+        created = setup_pairs(h, rng, kinds, whitelist=[other_wl, wl_user], mins=(m0, m1), comm=3 * 10 ** 15, provide=False)
+        for i, p in enumerate(created):
+            a0, a1 = h.pair_assets(p)
+            good = (max(m0, 1) * 3, max(m1, 1) * 5)
+            def prov(c, n0, n1, rcv):
+                return h.do(("provide", p, c, funds_for([(a0, n0), (a1, n1)]), a0, n0, a1, n1, None, rcv))
+            # attempts the contract must refuse while the pool is empty (whoever the receiver is)
+            for rcv in (wl_user, None, outsider2, outsider):
+                prov(outsider, good[0], good[1], rcv)
+            if m0 > 0:
+                prov(wl_user, m0 - 1, good[1], rng.choice([None, other_wl]))
+            if m1 > 0:
+                prov(wl_user, good[0], m1 - 1, rng.choice([None, outsider]))
+            # the one that goes through: a whitelisted caller, receiver varies with the pair
+            prov(wl_user, good[0], good[1], [None, outsider, other_wl, wl_user][(i + rep) % 4])
+            # ordinary provisions are open to all and are paid by the caller, whoever receives the LP
+            for c, rcv in ((outsider, wl_user), (outsider2, None), (wl_user, outsider)):
+                r0, r1 = h.reserves(p)
+                if r0 > 0 and r1 > 0:
+                    n0 = max(1, r0 // 7)
+                    prov(c, n0, max(1, n0 * r1 // r0), rcv)
+        cases.append(h.finish())
+    return cases
+
+
+def lookalike_histories(rng, tier):
+    """worlds in which a bank denom is spelled exactly like a cw20 contract address (the model keeps the two kinds apart, as
+    AssetInfo equality must): every entry point is offered the look-alike in place of the real asset, with and without
+    the matching coins attached (C01, C02, C03, C07, C09)"""
+    cases = []
+    for rep in range({"quick": 1, "thorough": 3}[tier]):
+        # world A: denom 2 is spelled like token 2, which the pairs trade
+        h = Hist(3, 3, 2, 3, 10 ** 12, 1000, [6, 18], "directed-matrix", "look-alike denom = traded cw20", look=(2, 2))
+        created = setup_pairs(h, rng, [(("n", 0), ("t", 2)), (("t", 2), ("t", 3)), (("n", 0), ("n", 1))],
+                              comm=rng.choice([0, 3 * 10 ** 15]), scale=10 ** 8)
+        u = USER0 + 1
+        for p in created[:2]:
+            a0, a1 = h.pair_assets(p)
+            other = a1 if a0 == ("t", 2) else a0
+            r = h.reserves(p)
+            rt = r[0] if a0 == ("t", 2) else r[1]
+            for amt in (max(1, rt // 50), max(1, rt // 2), rt):
+                for to in (None, USER0 + 2):
+                    h.do(("swap", p, u, [(2, amt)], ("n", 2), amt, None, None, to))
+            h.do(("swap", p, u, [], ("n", 2), 1000, None, None, None))
+            h.do(("swap", p, u, [(2, 1000)], ("t", 2), 1000, None, None, None))
+            # provisions listing the look-alike for the cw20 leg
+            n_t, n_o = max(1, rt // 10), max(1, (r[1] if a0 == ("t", 2) else r[0]) // 10)
+            for funds in ([(2, n_t)], [], funds_for([(other, n_o)]) + [(2, n_t)]):
+                h.do(("provide", p, u, sorted(funds), ("n", 2), n_t, other, n_o, None, None))
+            h.do(gen_swap(h, rng, p, u, limits=False))
+        # the router: a route that offers / asks the look-alike
+        for ops, funds in (([(("n", 2), ("n", 0))], [(2, 5000)]), ([(("n", 0), ("n", 2))], [(0, 5000)]),
+                           ([(("n", 2), ("t", 3))], [(2, 5000)]), ([(("n", 1), ("n", 0)), (("n", 0), ("n", 2))], [(1, 5000)])):
+            h.query("rsim 5000 %s" % ops_line(ops))
+            h.do(("router_ops", u, funds, ops, None, None))
+        cases.append(h.finish())
+        # world B: denom 2 is spelled like token 4, which users hold but no pair trades; the pair (denom2, token3) has a
+        # native leg that a cw20-kind asset can name
+        h = Hist(3, 3, 3, 3, 10 ** 12, 1000, [6, 6, 18], "directed-matrix", "look-alike cw20 = traded denom", look=(2, 4))
+        created = setup_pairs(h, rng, [(("n", 2), ("t", 3)), (("n", 0), ("n", 2))], comm=3 * 10 ** 15, scale=10 ** 8)
+        for u2 in h.users():
+            for p in created:
+                h.do(("incr_allow", 4, u2, p, h.ubal))
+        for p in created:
+            a0, a1 = h.pair_assets(p)
+            other = a1 if a0 == ("n", 2) else a0
+            r = h.reserves(p)
+            rn, ro = (r[0], r[1]) if a0 == ("n", 2) else (r[1], r[0])
+            n_n, n_o = max(1, rn // 10), max(1, ro // 10)
+            fo = funds_for([(other, n_o)])
+            for funds in (fo, sorted(fo + [(2, n_n)]), sorted(fo + [(2, n_n - 1)])):
+                for lst in ((("t", 4), n_n, other, n_o), (other, n_o, ("t", 4), n_n)):
+                    h.do(("provide", p, u, funds, lst[0], lst[1], lst[2], lst[3], None, None))
+            h.do(("provide", p, u, sorted(fo + [(2, n_n)]), ("n", 2), n_n, other, n_o, None, None))
+            for amt in (max(1, rn // 20), rn):
+                h.do(("send", 4, u, p, amt, ("hswap", ("t", 4), amt, None, None, None)))
+                h.do(("send", 4, u, p, amt, ("hswap", ("n", 2), amt, None, None, None)))
+                h.do(("swap", p, u, [(2, amt)], ("t", 4), amt, None, None, None))
+            h.do(gen_swap(h, rng, p, u, limits=False))
+            lp = h.pair_lp(p)
+            b = h.bal(lp, u)
+            if b > 0:
+                h.do(("send", lp, u, p, b, ("hwithdraw",)))
         cases.append(h.finish())
     return cases
 
@@ -936,6 +1053,12 @@ def registry_histories(rng, tier):
         rng.shuffle(allp)
         # make sure denom 0 is in many pairs, in both positions
         allp.sort(key=lambda ab: 0 if ("n", 0) in ab else 1)
+        # one cw20 named in two spellings of its address (the same contract to the chain, different strings to the
+        # factory's "same asset" guard), and a non-normalised spelling next to a different asset: never creatable
+        tk = rng.choice([2, 3, 4])
+        other = rng.choice([x for x in assets if x != ("t", tk)])
+        for (x, y) in ((("t", tk), ("T", tk)), (("T", tk), ("t", tk)), (("T", tk), other), (other, ("T", tk))):
+            h.do(("fac_create_pair", owner, x, y, [USER0], 0, 0, None, None))
         made = 0
         for (a, b) in allp:
             if made >= n:
@@ -993,6 +1116,19 @@ def router_histories(rng, tier):
                 h.do(("router_ops", u, [(ops[0][0][1], amount)], ops, m, to), quote)
             else:
                 h.do(("send", ops[0][0][1], u, ROUTER, amount, ("hrouter", ops, m, to)), quote)
+        # directed: the recipient is itself a participant of the route whose balance of the final asset FALLS during it
+        # (a pool that sells the final asset in the first hop of a route that comes back to it; the router itself)
+        for ops, to_kind in (([(A, B), (B, C), (C, B)], "pool0"), ([(B, C), (C, E), (E, B)], "router"),
+                             ([(A, B), (B, E), (E, B)], "pool0")):
+            u = rng.choice(h.users())
+            amount = max(1, min(h.abal(ops[0][0], u), loguniform(rng, 10, 40)))
+            quote = h.query("rsim %d %s" % (amount, ops_line(ops)))
+            to = h.pair_for(*ops[0]) if to_kind == "pool0" else ROUTER
+            for m in (1, (quote[0] // 2 if quote else 1) or 1):
+                if ops[0][0][0] == "n":
+                    h.do(("router_ops", u, [(ops[0][0][1], amount)], ops, m, to), quote)
+                else:
+                    h.do(("send", ops[0][0][1], u, ROUTER, amount, ("hrouter", ops, m, to)), quote)
         n_steps = {"quick": 20, "thorough": 40}[tier]
         for step_i in range(n_steps):
             u = rng.choice(h.users())
@@ -1032,6 +1168,8 @@ def router_histories(rng, tier):
             elif rng.random() < 0.3:
                 m = rng.choice([0, 1, 2 ** 127])
             to = rng.choice([None, None, rng.choice(h.users()), u])
+            if ops and rng.random() < 0.1:
+                to = rng.choice([ROUTER] + [q for q in (h.pair_for(o, a) for o, a in ops) if q is not None])
             if ops and rng.random() < 0.35:
                 # a recipient who already holds more of the final asset than the sender, minimum just above the quote
                 tgt = ops[-1][1]
